@@ -15,6 +15,8 @@ def run_program(oldk, newk):
 
     class Fin(object):
         """the object whose release runs user code"""
+        dealloc = False
+
         def __init__(self):
             self.armed = True
 
@@ -25,7 +27,11 @@ def run_program(oldk, newk):
             if self.armed:
                 self.armed = False
                 try:
-                    log.append(("read", type(A().x).__name__))
+                    gc.collect()              # a collection INSIDE the finaliser
+                    if self.dealloc:
+                        log.append(("read", "collected"))
+                    else:
+                        log.append(("read", type(A().x).__name__))
                 except BaseException as e:
                     log.append(("read-raised", type(e).__name__))
 
@@ -39,10 +45,21 @@ def run_program(oldk, newk):
         return fin if fin is not None else (lambda obj: 1)
     kind_of = {"constant": DefaultValue.constant, "callable_and_args": DefaultValue.callable_and_args,
                "list_copy": DefaultValue.list_copy, "callable": DefaultValue.callable}
-    ct.set_default_value(kind_of[oldk], value_of(oldk, Fin()))
-    gc.collect()
-    ct.set_default_value(kind_of[newk], value_of(newk, None))      # the old default dies here: its finaliser reads A().x
-    gc.collect()
+    if newk == "dealloc":
+        # a definition that is the LAST owner of its default dies; the default's finaliser runs a collection
+        fin = Fin()
+        fin.dealloc = True
+        ct2 = Any().as_ctrait()
+        ct2.set_default_value(kind_of[oldk], value_of(oldk, fin))
+        del fin
+        gc.collect()
+        del ct2
+        gc.collect()
+    else:
+        ct.set_default_value(kind_of[oldk], value_of(oldk, Fin()))
+        gc.collect()
+        ct.set_default_value(kind_of[newk], value_of(newk, None))      # the old default dies here: its finaliser reads A().x
+        gc.collect()
     fired = any(l[0].startswith("read") for l in log)
     # the class goes on working with the new default
     try:
@@ -55,7 +72,7 @@ def run_program(oldk, newk):
 
 
 def programs():
-    return [(a, b) for a in KINDS for b in KINDS]
+    return [(a, b) for a in KINDS for b in KINDS + ["dealloc"]]
 
 
 def run_all(progs):
